@@ -585,6 +585,11 @@ class EQLTranslator:
         else:
             target_dao, target_fk, anchor_fk = left_dao, left_fk, right_fk
 
+        if target_dao is anchor_dao:
+            raise UnsupportedQueryTypeError(
+                f"Joining {anchor_dao.__name__} with itself over two variables is not supported."
+            )
+
         if not self.join_manager.is_table_joined(target_dao):
             onclause = target_fk == anchor_fk
             self.sql_query = self.sql_query.join(target_dao, onclause=onclause)
@@ -600,6 +605,7 @@ class EQLTranslator:
         :return: Translated SQL value or expression
         """
         if isinstance(operand, Attribute):
+            self._assert_attribute_belongs_to_a_table_of_the_query(operand)
             return self.translate_attribute(operand)
 
         if isinstance(operand, Literal):
@@ -611,6 +617,29 @@ class EQLTranslator:
             return extractor.extract_from_variable(operand)
 
         return operand
+
+    def _assert_attribute_belongs_to_a_table_of_the_query(self, attribute: Attribute):
+        """
+        An attribute of a variable other than the selected one can only be referred to if the table of that variable
+        was joined. Otherwise, the column would be taken from the table of the selected variable (if both variables have
+        the same type) or from a table that is not part of the statement.
+
+        :param attribute: The attribute used as an operand.
+        :raises UnsupportedQueryTypeError: If the attribute belongs to a variable that is not part of the statement.
+        """
+        resolver = AttributeChainResolver()
+        leaf = resolver.extract_leaf_variable(attribute)
+        selected = self.select_like.selected_variable
+        selected = getattr(selected, "_var_", None) or selected
+        if not isinstance(leaf, Variable) or leaf is selected:
+            return
+        leaf_dao = resolver.extract_base_dao(attribute)
+        anchor_dao = get_dao_class(selected._type_)
+        if leaf_dao is anchor_dao or not self.join_manager.is_table_joined(leaf_dao):
+            raise UnsupportedQueryTypeError(
+                f"The attribute {attribute._name_} belongs to a variable that is neither the selected variable nor "
+                f"joined with it."
+            )
 
     def _handle_contains_operator(
         self, query: Comparator, left: Any, right: Any, operator_name: str
